@@ -74,7 +74,7 @@ def gen_on_grid(rng: random.Random, tier: str):
         yield {"src": src, "tgt": tgt, "mode": rng.choice(["linear", "linear", "nearest"]), "pad": pad,
                "c": rng.choice([3.0, -1.5, 7.0]) if pad == "const" else None,
                "seed": rng.randrange(1 << 30), "api": rng.choice(["image", "batch1", "batchN_shared", "batchN_own", "batchN_own_single", "batchN_single",
-                                  "module_align", "module_transform"])}
+                                  "batchN_target_is_grid0", "module_align", "module_transform"])}
 
 
 def _run_sample(c):
@@ -106,7 +106,13 @@ def _run_sample(c):
         b = ImageBatch(torch.stack([decoy, data]), gs)
         out = b.sample(gt, mode=c["mode"], padding=padding)
         return out.tensor()[1, 0], out.grids()[-1], gs, gt, data
-    if api == "batchN_own_single":
+    if api == "batchN_target_is_grid0" and list(gt.shape) == list(gs.shape):
+        # per-image source grids, ONE target Grid that happens to BE the grid of image 0: image 0 needs no resampling,
+        # every other image does
+        b = ImageBatch(torch.stack([decoy, data]), [gt, gs])
+        out = b.sample(gt, mode=c["mode"], padding=padding)
+        return out.tensor()[1, 0], out.grids()[-1], gs, gt, data
+    if api in ("batchN_own_single", "batchN_target_is_grid0"):
         # per-image source grids, ONE target Grid for the whole batch: every image is mapped through its own grid
         gs0 = gs.center(gs.center() + 0.37 * gs.spacing())
         b = ImageBatch(torch.stack([decoy, data]), [gs0, gs])
@@ -278,8 +284,22 @@ def cmp_spec(c, r, out):
            (close(r["deepali"], m, 2e-4, dscale) and "deepali maps vs Itk spec: " + close(r["deepali"], m, 2e-4, dscale))
 
 
+def _same_shape_for_grid0(gen_fn):
+    """cases of the `batchN_target_is_grid0` form get a target of the source's size (the target is the grid of batch item 0, and
+    all items of a batch share one tensor shape); sources with a derived (fractional) size use another form"""
+    def wrapped(rng, tier):
+        for c in gen_fn(rng, tier):
+            if c.get("api") == "batchN_target_is_grid0":
+                if "derive" in c["src"]:
+                    c["api"] = "batchN_own_single"
+                else:
+                    c["tgt"] = dict(c["tgt"], size=list(c["src"]["size"]))
+            yield c
+    return wrapped
+
+
 STREAMS = PRIM_STREAMS + [
-    Stream("sample.on_grid", gen_on_grid, impl_on_grid, line_on_grid, cmp_on_grid,
+    Stream("sample.on_grid", _same_shape_for_grid0(gen_on_grid), impl_on_grid, line_on_grid, cmp_on_grid,
            nontrivial=lambda c: gen.grid_nontrivial(c["src"]) and c["src"] != c["tgt"],
            doc="Image/ImageBatch.sample(grid) values for random oriented grid pairs x {linear,nearest} x "
                "{zeros,border,constant c} x {Image, batch 1, batch N shared/per-image grids, AlignImage/TransformImage modules with every axes choice} vs the model pipeline"),
@@ -304,7 +324,7 @@ def gen_itk(rng: random.Random, tier: str):
         yield {"src": src, "tgt": tgt, "mode": rng.choice(["linear", "nearest"]), "pad": pad,
                "c": 5.0 if pad == "const" else None, "seed": rng.randrange(1 << 30),
                "api": rng.choice(["image", "batch1", "batchN_shared", "batchN_own", "batchN_own_single", "batchN_single",
-                                  "module_align", "module_transform"])}
+                                  "batchN_target_is_grid0", "module_align", "module_transform"])}
 
 
 def check_itk(c):
@@ -450,7 +470,7 @@ def check_singleton(c):
 
 
 ORACLES = [
-    Oracle("itk", gen_itk, check_itk, nontrivial=lambda c: gen.grid_nontrivial(c["src"]),
+    Oracle("itk", _same_shape_for_grid0(gen_itk), check_itk, nontrivial=lambda c: gen.grid_nontrivial(c["src"]),
            doc="deepali sample (Image, ImageBatch, AlignImage/TransformImage modules) vs SimpleITK.Resample(identity) at target samples inside the source field of view"),
     Oracle("self", gen_self, check_self, doc="sampling on own / equal grid / own coords returns the image"),
     Oracle("singleton", gen_singleton, check_singleton,
